@@ -215,4 +215,251 @@ theorem reachHistory_inv (sem : Sem S Req Resp) (Inv : S → Prop)
     · exact hrec pl p s hs s' hm
     · exact ih _ (hrec pl p s hs _ (run_mem_reach sem pl 0 p s)) s' hm
 
+/-! ### Interference by other clients of the API server (rely / guarantee)
+
+`Env` is what OTHER clients do to the store right before API call `k` of the program
+(a concurrent replica of the same controller, another controller, an operator). `runE`
+is `run` with that interference; `run` is the special case `Env.none` (`runE_none`).
+`ownE` lists the program's own applied calls together with the store at the moment
+each was applied, so that guarantees can be stated about the program's own writes.
+Nothing above this line depends on anything below. -/
+
+abbrev Env (S : Type) := Nat → S → S
+
+/-- no interference -/
+def Env.none : Env S := fun _ s => s
+
+/-- Final store and result under interference `env` and fault plan `plan`. -/
+def runE (sem : Sem S Req Resp) (env : Env S) (plan : Plan) : Nat → Prog Req Resp α → S → S × Option α
+  | _, .ret a, s => (s, some a)
+  | k, .call r c, s =>
+    match plan k with
+    | .ok => runE sem env plan (k+1) (c (sem.exec (env k s) r).2) (sem.exec (env k s) r).1
+    | .fail => runE sem env plan (k+1) (c (sem.errResp .fail r)) (env k s)
+    | .conflict => runE sem env plan (k+1) (c (sem.errResp .conflict r)) (env k s)
+    | .crashBefore => (env k s, none)
+    | .crashAfter => ((sem.exec (env k s) r).1, none)
+
+/-- The program's own applied calls: (store at the moment of the call, request), in order. -/
+def ownE (sem : Sem S Req Resp) (env : Env S) (plan : Plan) : Nat → Prog Req Resp α → S → List (S × Req)
+  | _, .ret _, _ => []
+  | k, .call r c, s =>
+    match plan k with
+    | .ok => (env k s, r) :: ownE sem env plan (k+1) (c (sem.exec (env k s) r).2) (sem.exec (env k s) r).1
+    | .fail => ownE sem env plan (k+1) (c (sem.errResp .fail r)) (env k s)
+    | .conflict => ownE sem env plan (k+1) (c (sem.errResp .conflict r)) (env k s)
+    | .crashBefore => []
+    | .crashAfter => [(env k s, r)]
+
+/-- One log entry per attempted call under interference (request, outcome, reply). -/
+def callLogE (sem : Sem S Req Resp) (env : Env S) (plan : Plan) : Nat → Prog Req Resp α → S → List (Req × Outcome × Option Resp)
+  | _, .ret _, _ => []
+  | k, .call r c, s =>
+    match plan k with
+    | .ok => (r, .ok, some (sem.exec (env k s) r).2) :: callLogE sem env plan (k+1) (c (sem.exec (env k s) r).2) (sem.exec (env k s) r).1
+    | .fail => (r, .fail, some (sem.errResp .fail r)) :: callLogE sem env plan (k+1) (c (sem.errResp .fail r)) (env k s)
+    | .conflict => (r, .conflict, some (sem.errResp .conflict r)) :: callLogE sem env plan (k+1) (c (sem.errResp .conflict r)) (env k s)
+    | .crashBefore => [(r, .crashBefore, none)]
+    | .crashAfter => [(r, .crashAfter, none)]
+
+section envEqns
+variable (sem : Sem S Req Resp) (env : Env S) (plan : Plan) (k : Nat) (r : Req) (c : Resp → Prog Req Resp α) (s : S)
+
+theorem runE_ok (h : plan k = .ok) : runE sem env plan k (.call r c) s =
+    runE sem env plan (k+1) (c (sem.exec (env k s) r).2) (sem.exec (env k s) r).1 := by simp [runE, h]
+theorem runE_fail (h : plan k = .fail) : runE sem env plan k (.call r c) s =
+    runE sem env plan (k+1) (c (sem.errResp .fail r)) (env k s) := by simp [runE, h]
+theorem runE_conflict (h : plan k = .conflict) : runE sem env plan k (.call r c) s =
+    runE sem env plan (k+1) (c (sem.errResp .conflict r)) (env k s) := by simp [runE, h]
+theorem runE_crashBefore (h : plan k = .crashBefore) : runE sem env plan k (.call r c) s = (env k s, none) := by
+  simp [runE, h]
+theorem runE_crashAfter (h : plan k = .crashAfter) : runE sem env plan k (.call r c) s =
+    ((sem.exec (env k s) r).1, none) := by simp [runE, h]
+
+theorem ownE_ok (h : plan k = .ok) : ownE sem env plan k (.call r c) s =
+    (env k s, r) :: ownE sem env plan (k+1) (c (sem.exec (env k s) r).2) (sem.exec (env k s) r).1 := by simp [ownE, h]
+theorem ownE_fail (h : plan k = .fail) : ownE sem env plan k (.call r c) s =
+    ownE sem env plan (k+1) (c (sem.errResp .fail r)) (env k s) := by simp [ownE, h]
+theorem ownE_conflict (h : plan k = .conflict) : ownE sem env plan k (.call r c) s =
+    ownE sem env plan (k+1) (c (sem.errResp .conflict r)) (env k s) := by simp [ownE, h]
+theorem ownE_crashBefore (h : plan k = .crashBefore) : ownE sem env plan k (.call r c) s = [] := by
+  simp [ownE, h]
+theorem ownE_crashAfter (h : plan k = .crashAfter) : ownE sem env plan k (.call r c) s = [(env k s, r)] := by
+  simp [ownE, h]
+end envEqns
+
+/-- Without interference `runE` is `run`: every statement about `run` is the `Env.none` case. -/
+theorem runE_none (sem : Sem S Req Resp) (plan : Plan) (k : Nat) (p : Prog Req Resp α) (s : S) :
+    runE sem Env.none plan k p s = run sem plan k p s := by
+  induction p generalizing k s with
+  | ret a => rfl
+  | call r c ih =>
+    cases hk : plan k <;> simp [runE, run, hk, Env.none, ih] <;> exact ih _ _ _
+
+/-- Without interference the own applied calls are exactly `applied`. -/
+theorem ownE_none (sem : Sem S Req Resp) (plan : Plan) (k : Nat) (p : Prog Req Resp α) (s : S) :
+    (ownE sem Env.none plan k p s).map (·.2) = applied sem plan k p s := by
+  induction p generalizing k s with
+  | ret a => rfl
+  | call r c ih =>
+    cases hk : plan k <;> simp [ownE, applied, hk, Env.none, ih] <;> exact ih _ _ _
+
+/-- Every own applied call of a program that only issues `Q`-requests is a `Q`-request,
+whatever the environment does. -/
+theorem ownE_issues (sem : Sem S Req Resp) (Q : Req → Prop) (env : Env S) (plan : Plan) (k : Nat)
+    (p : Prog Req Resp α) (hp : Issues Q p) (s : S) : ∀ x ∈ ownE sem env plan k p s, Q x.2 := by
+  induction hp generalizing k s with
+  | ret a => intro x h; simp [ownE] at h
+  | call r c hq _ ih =>
+    intro x h
+    cases hk : plan k with
+    | ok =>
+      rw [ownE_ok sem env plan k r c s hk] at h
+      cases List.mem_cons.mp h with
+      | inl e => subst e; exact hq
+      | inr h' => exact ih _ _ _ x h'
+    | fail => rw [ownE_fail sem env plan k r c s hk] at h; exact ih _ _ _ x h
+    | conflict => rw [ownE_conflict sem env plan k r c s hk] at h; exact ih _ _ _ x h
+    | crashBefore => rw [ownE_crashBefore sem env plan k r c s hk] at h; simp at h
+    | crashAfter =>
+      rw [ownE_crashAfter sem env plan k r c s hk] at h
+      simp at h; subst h; exact hq
+
+/-- Rely/guarantee for a preorder `Rel` on stores: if every own `Q`-request moves the store along
+`Rel` (guarantee) and so does every action of the environment (rely), then the final store is
+`Rel`-above the start, above the store at the moment of every own call, and above its result. -/
+theorem runE_rel (sem : Sem S Req Resp) (Rel : S → S → Prop) (hrefl : ∀ s, Rel s s)
+    (htrans : ∀ a b c, Rel a b → Rel b c → Rel a c)
+    (Q : Req → Prop) (hstep : ∀ s r, Q r → Rel s (sem.exec s r).1)
+    (env : Env S) (henv : ∀ k s, Rel s (env k s))
+    (plan : Plan) (k : Nat) (p : Prog Req Resp α) (hp : Issues Q p) (s : S) :
+    Rel s (runE sem env plan k p s).1 ∧
+    ∀ x ∈ ownE sem env plan k p s, Rel s x.1 ∧ Rel (sem.exec x.1 x.2).1 (runE sem env plan k p s).1 := by
+  induction hp generalizing k s with
+  | ret a => exact ⟨hrefl s, by intro x h; simp [ownE] at h⟩
+  | call r c hq _ ih =>
+    cases hk : plan k with
+    | ok =>
+      rw [runE_ok sem env plan k r c s hk, ownE_ok sem env plan k r c s hk]
+      obtain ⟨h1, h2⟩ := ih (sem.exec (env k s) r).2 (k+1) (sem.exec (env k s) r).1
+      have hs : Rel s (sem.exec (env k s) r).1 := htrans _ _ _ (henv k s) (hstep _ r hq)
+      refine ⟨htrans _ _ _ hs h1, ?_⟩
+      intro x hx
+      cases List.mem_cons.mp hx with
+      | inl e => subst e; exact ⟨henv k s, h1⟩
+      | inr hx' => exact ⟨htrans _ _ _ hs (h2 x hx').1, (h2 x hx').2⟩
+    | fail =>
+      rw [runE_fail sem env plan k r c s hk, ownE_fail sem env plan k r c s hk]
+      obtain ⟨h1, h2⟩ := ih (sem.errResp .fail r) (k+1) (env k s)
+      exact ⟨htrans _ _ _ (henv k s) h1, fun x hx => ⟨htrans _ _ _ (henv k s) (h2 x hx).1, (h2 x hx).2⟩⟩
+    | conflict =>
+      rw [runE_conflict sem env plan k r c s hk, ownE_conflict sem env plan k r c s hk]
+      obtain ⟨h1, h2⟩ := ih (sem.errResp .conflict r) (k+1) (env k s)
+      exact ⟨htrans _ _ _ (henv k s) h1, fun x hx => ⟨htrans _ _ _ (henv k s) (h2 x hx).1, (h2 x hx).2⟩⟩
+    | crashBefore =>
+      rw [runE_crashBefore sem env plan k r c s hk, ownE_crashBefore sem env plan k r c s hk]
+      exact ⟨henv k s, by intro x h; simp at h⟩
+    | crashAfter =>
+      rw [runE_crashAfter sem env plan k r c s hk, ownE_crashAfter sem env plan k r c s hk]
+      refine ⟨htrans _ _ _ (henv k s) (hstep _ r hq), ?_⟩
+      intro x hx
+      simp at hx; subst hx
+      exact ⟨henv k s, hrefl _⟩
+
+/-- Invariant form: kept by own `Q`-requests and by the environment, hence true of the final store. -/
+theorem runE_inv (sem : Sem S Req Resp) (Inv : S → Prop) (Q : Req → Prop)
+    (hstep : ∀ s r, Inv s → Q r → Inv (sem.exec s r).1)
+    (env : Env S) (henv : ∀ k s, Inv s → Inv (env k s))
+    (plan : Plan) (k : Nat) (p : Prog Req Resp α) (hp : Issues Q p) (s : S) (hs : Inv s) :
+    Inv (runE sem env plan k p s).1 := by
+  induction hp generalizing k s with
+  | ret a => exact hs
+  | call r c hq _ ih =>
+    cases hk : plan k with
+    | ok => rw [runE_ok sem env plan k r c s hk]; exact ih _ _ _ (hstep _ r (henv k s hs) hq)
+    | fail => rw [runE_fail sem env plan k r c s hk]; exact ih _ _ _ (henv k s hs)
+    | conflict => rw [runE_conflict sem env plan k r c s hk]; exact ih _ _ _ (henv k s hs)
+    | crashBefore => rw [runE_crashBefore sem env plan k r c s hk]; exact henv k s hs
+    | crashAfter => rw [runE_crashAfter sem env plan k r c s hk]; exact hstep _ r (henv k s hs) hq
+
+/-- Rely/guarantee weakest precondition. `WpE sem R G p Q s`: from `s`, whatever an environment
+obeying the rely `R` does before each call and whatever the fault plan, every own call of `p`
+satisfies the guarantee `G` (store at that moment, request) and a returned result satisfies `Q`. -/
+def WpE (sem : Sem S Req Resp) (R : S → S → Prop) (G : S → Req → Prop) :
+    Prog Req Resp α → (S → α → Prop) → S → Prop
+  | .ret a, Q, s => Q s a
+  | .call r c, Q, s => ∀ s', R s s' →
+      G s' r ∧ WpE sem R G (c (sem.exec s' r).2) Q (sem.exec s' r).1 ∧
+      WpE sem R G (c (sem.errResp .fail r)) Q s' ∧ WpE sem R G (c (sem.errResp .conflict r)) Q s'
+
+theorem wpE_sound (sem : Sem S Req Resp) (R : S → S → Prop) (G : S → Req → Prop)
+    (env : Env S) (henv : ∀ k s, R s (env k s)) (plan : Plan) (k : Nat)
+    (p : Prog Req Resp α) (Q : S → α → Prop) (s : S) (h : WpE sem R G p Q s) :
+    (∀ x ∈ ownE sem env plan k p s, G x.1 x.2) ∧
+    (∀ a, (runE sem env plan k p s).2 = some a → Q (runE sem env plan k p s).1 a) := by
+  induction p generalizing k s with
+  | ret a =>
+    refine ⟨by intro x hx; simp [ownE] at hx, ?_⟩
+    intro b hb
+    simp [runE] at hb ⊢
+    subst hb; exact h
+  | call r c ih =>
+    obtain ⟨hg, h1, h2, h3⟩ := h (env k s) (henv k s)
+    cases hk : plan k with
+    | ok =>
+      rw [runE_ok sem env plan k r c s hk, ownE_ok sem env plan k r c s hk]
+      obtain ⟨i1, i2⟩ := ih _ (k+1) _ h1
+      refine ⟨?_, i2⟩
+      intro x hx
+      cases List.mem_cons.mp hx with
+      | inl e => subst e; exact hg
+      | inr hx' => exact i1 x hx'
+    | fail =>
+      rw [runE_fail sem env plan k r c s hk, ownE_fail sem env plan k r c s hk]
+      exact ih _ (k+1) _ h2
+    | conflict =>
+      rw [runE_conflict sem env plan k r c s hk, ownE_conflict sem env plan k r c s hk]
+      exact ih _ (k+1) _ h3
+    | crashBefore =>
+      rw [runE_crashBefore sem env plan k r c s hk, ownE_crashBefore sem env plan k r c s hk]
+      exact ⟨by intro x hx; simp at hx, by intro a ha; simp at ha⟩
+    | crashAfter =>
+      rw [runE_crashAfter sem env plan k r c s hk, ownE_crashAfter sem env plan k r c s hk]
+      refine ⟨?_, by intro a ha; simp at ha⟩
+      intro x hx
+      simp at hx; subst hx; exact hg
+
+theorem wpE_mono (sem : Sem S Req Resp) (R : S → S → Prop) (G G' : S → Req → Prop)
+    (hG : ∀ s r, G s r → G' s r) (p : Prog Req Resp α) (Q Q' : S → α → Prop)
+    (hQ : ∀ s a, Q s a → Q' s a) (s : S) (h : WpE sem R G p Q s) : WpE sem R G' p Q' s := by
+  induction p generalizing s with
+  | ret a => exact hQ _ _ h
+  | call r c ih =>
+    intro s' hr
+    obtain ⟨hg, h1, h2, h3⟩ := h s' hr
+    exact ⟨hG _ _ hg, ih _ _ h1, ih _ _ h2, ih _ _ h3⟩
+
+theorem wpE_bind {β : Type} (sem : Sem S Req Resp) (R : S → S → Prop) (G : S → Req → Prop)
+    (p : Prog Req Resp α) (f : α → Prog Req Resp β) (Q : S → β → Prop) (s : S)
+    (h : WpE sem R G p (fun s a => WpE sem R G (f a) Q s) s) : WpE sem R G (Prog.bind p f) Q s := by
+  induction p generalizing s with
+  | ret a => exact h
+  | call r c ih =>
+    intro s' hr
+    obtain ⟨hg, h1, h2, h3⟩ := h s' hr
+    exact ⟨hg, ih _ _ h1, ih _ _ h2, ih _ _ h3⟩
+
+/-- A program that only issues `Qr`-requests keeps every invariant that `Qr`-requests and the
+rely keep; at every own call the invariant holds of the store at that moment. -/
+theorem wpE_of_issues (sem : Sem S Req Resp) (R : S → S → Prop) (Inv : S → Prop) (Qr : Req → Prop)
+    (hstep : ∀ s r, Inv s → Qr r → Inv (sem.exec s r).1) (hrely : ∀ s s', Inv s → R s s' → Inv s')
+    (p : Prog Req Resp α) (hp : Issues Qr p) (s : S) (hs : Inv s) :
+    WpE sem R (fun s r => Inv s ∧ Qr r) p (fun s _ => Inv s) s := by
+  induction hp generalizing s with
+  | ret a => exact hs
+  | call r c hq _ ih =>
+    intro s' hr
+    have hs' := hrely s s' hs hr
+    exact ⟨⟨hs', hq⟩, ih _ _ (hstep _ r hs' hq), ih _ _ hs', ih _ _ hs'⟩
+
 end Xp
